@@ -200,10 +200,6 @@ class _getitem_slice:
     def _(o):
         return o.index.step is not None and o.index.step < 0
 
-    known = {
-        # F18a: a slice with an explicit step of 1 is refused although it does not reorder anything
-        "raise:IndexError": [("F18a", lambda o: o.index.step == 1)],
-    }
 
 
 @contract(H1K + ".__getitem__", props=["C11"], name=H1K + ".__getitem__[int]")
